@@ -18,7 +18,7 @@ def tune_jobs(prop, tier):
     """family tune of mcseq: the complete product of the tuning parameters (maxsuper 1..n x relax 1..4 x panel x rowblk x colblk x threads x static/dynamic
     storage) on 20 catalogue matrices n = 5..12 (dense and trailing-dense blocks included); every (maxsuper, rowblk) class in processes of its own"""
     j = []
-    for p in ('d' if tier == 'quick' else 'sdcz'):
+    for p in 'sdcz':        # all four precisions in the quick tier too: the kernels are separate hand-expanded copies (seeded changes C01-5, C02-5 sat in the complex 2-D kernel)
         for vk in ((0,) if tier == 'quick' else (0, 1)):
             j += seq(prop, 'q', p, 0, 'full', family='tune', vkind=vk, slices=20 if tier != 'quick' else 10)
     return j
